@@ -18,3 +18,78 @@ step! { int;
         kani::cover!(!res, "final pass not resolved");
     }
 }
+
+// ---------------------------------------------------------------- C01-e emission order
+
+modelled_bits! {
+    #[kani::unwind(2)]
+    fn c01_e_write_bigint() {
+        // write_bigint(index, v of size n): output bit index+i = bit (n-1-i) of v; nothing else written
+        reset_bitstore();
+        let n: usize = kani::any();
+        kani::assume(n <= 16);
+        let index: usize = kani::any();
+        kani::assume(index <= 40);
+        let v: i32 = kani::any();
+        let old_len: usize = kani::any();
+        kani::assume(old_len <= 64);
+        let mut bv = util::BitVec::new();
+        if old_len > 0 { bv.write_bit(old_len - 1, false); }
+        let val = BigInt::new(v as i64, Some(n));
+        bv.write_bigint(index, &val);
+        let want_len = if index + n > old_len { index + n } else { old_len };
+        assert!(bv.len() == want_len, "length after a write is not max(old length, index + size)");
+        let i: usize = kani::any();
+        kani::assume(i < 64);
+        let want = if i >= index && i < index + n { ((v as i64) >> (n - 1 - (i - index))) & 1 == 1 } else { false };
+        assert!(dst_bit(i) == want, "emitted bit differs from the value's bit (most significant first) or a bit outside the item was written");
+        kani::cover!(n == 16 && index == 3, "16-bit item at an unaligned position");
+        kani::cover!(n == 0, "empty item");
+        kani::cover!(v < 0 && n == 5, "negative value emitted as two's complement");
+        std::mem::forget(bv); std::mem::forget(val);
+    }
+}
+
+// ---------------------------------------------------------------- C01-d address bookkeeping
+
+/// Walks [data(2 elems), label] / [res, label] / [instruction, label]: the context handed to the
+/// label has cur_position = sum of the stored sizes of what precedes it.
+modelled! {
+    #[kani::unwind(4)]
+    fn c01_d_position_bookkeeping() {
+        reset_report_model();
+        let mut report = diagn::Report::new();
+        let mut decls = empty_decls();
+        let sym = decls.symbols.verif_push_decl("l", 0, util::SymbolContext::new_global());
+        let mut defs = asm::defs::init();
+        defs.bankdefs.define(util::ItemRef::new(0), bank(0, 8, 0, None, Some(0), false));
+        let (s0, s1, s2, s3): (usize, usize, usize, usize) = (kani::any(), kani::any(), kani::any(), kani::any());
+        kani::assume(s0 < (1 << 20) && s1 < (1 << 20) && s2 < (1 << 40) && s3 < (1 << 20));
+        defs.data_elems.define(util::ItemRef::new(0), asm::DataElement { item_ref: util::ItemRef::new(0), position_within_bank: None, encoding_statically_known: true, encoding: BigInt::new(0, Some(s0)), resolved: false });
+        defs.data_elems.define(util::ItemRef::new(1), asm::DataElement { item_ref: util::ItemRef::new(1), position_within_bank: None, encoding_statically_known: true, encoding: BigInt::new(0, Some(s1)), resolved: false });
+        defs.res_directives.define(util::ItemRef::new(0), asm::ResDirective { item_ref: util::ItemRef::new(0), reserve_size: s2 });
+        defs.instructions.define(util::ItemRef::new(0), asm::Instruction { item_ref: util::ItemRef::new(0), matches: asm::InstructionMatches::new(), encoding_statically_known: false, encoding: BigInt::new(0, Some(s3)), resolved: false });
+        let lit = || expr::Expr::Literal(sp(), expr::Value::Bool(false));
+        let ast = asm::AstTopLevel { nodes: vec![
+            asm::AstAny::DirectiveData(asm::AstDirectiveData { header_span: sp(), elem_size: None, elems: vec![lit(), lit()], item_refs: vec![util::ItemRef::new(0), util::ItemRef::new(1)] }),
+            asm::AstAny::DirectiveRes(asm::AstDirectiveRes { header_span: sp(), expr: lit(), item_ref: Some(util::ItemRef::new(0)) }),
+            asm::AstAny::Instruction(asm::AstInstruction { span: sp(), src: String::from("i"), item_ref: Some(util::ItemRef::new(0)) }),
+            asm::AstAny::Symbol(asm::AstSymbol { decl_span: sp(), hierarchy_level: 0, name: String::from("l"), kind: asm::AstSymbolKind::Label, no_emit: false, item_ref: Some(sym) }),
+        ] };
+        let mut it = asm::ResolveIterator::new(&ast, &defs, false, false);
+        let want = [0, s0, s0 + s1, s0 + s1 + s2, s0 + s1 + s2 + s3];
+        let mut k = 0;
+        while k < 5 {
+            match it.next(&mut report, &decls, &defs) {
+                Ok(Some(ctx)) => {
+                    assert!(ctx.bank_data.cur_position == want[k], "position of an item is not the sum of the sizes before it");
+                    if k == 4 { assert!(matches!(ctx.node, asm::ResolverNode::Symbol(_))); kani::cover!(s2 > 0 && s3 > 0, "label after data, reservation and instruction"); }
+                    std::mem::forget(ctx);
+                }
+                _ => assert!(false, "iterator ended early"),
+            }
+            k += 1;
+        }
+        std::mem::forget(it); std::mem::forget(decls); std::mem::forget(defs); std::mem::forget(report); std::mem::forget(ast);
+    }
+}
